@@ -146,6 +146,29 @@ func generate(r *runner.Run, emit func(job) bool) {
 	// into the next (e.g. a recycled header map) is observable
 	flush(cs, batchMax)
 
+	// ---- sweep "unicode": one representative per (general category x plane) and the escaping boundary cases,
+	// as header value and as payload, through ingress / publish / Store.Enqueue (unicode_test.go)
+	{
+		all, pullOnly := unicodeCases()
+		flush(all, batchMax)
+		for len(pullOnly) > 0 && ok {
+			n := min(batchMax, len(pullOnly))
+			for _, be := range backends {
+				for _, fl := range []string{flowHG, flowGH} {
+					if ok {
+						ok = emit(job{Backend: be, Flow: fl, Cases: pullOnly[:n]})
+					}
+				}
+			}
+			pullOnly = pullOnly[n:]
+		}
+	}
+
+	// ---- family "bounded queue": histories on queues with queue_limits (bounded_test.go)
+	if ok {
+		ok = boundedJobs(r, emit)
+	}
+
 	// ---- sweep "publish-header": every subset of the publish atoms x 2 bodies
 	cs = nil
 	for mask := 0; mask < 1<<len(pubAtoms); mask++ {
